@@ -115,3 +115,28 @@ func VerifC17_StaleOnlyAfterTwoPeriods() {
 	verif.Assert("backend_failure_is_not_staleness", !B.lock.IsStale())
 	lfs.before = nil
 }
+
+// VerifC17_SlowStorage: every backend operation takes some (virtual) time --
+// storage latency, I/O load -- for a long hold: the live holder's lock still
+// never looks stale as long as one beat's overhead stays below a period.
+func VerifC17_SlowStorage() {
+	lfs, cs := vLockSetup(false)
+	A, B := cs[0], cs[1]
+	ctx := context.Background()
+	latency := []time.Duration{time.Millisecond, 3 * time.Millisecond}[verif.Choice("latencyPerOperation", 2)]
+	lfs.before = func(op *vOp) error {
+		verif.Advance(latency)
+		return nil
+	}
+	verif.Assert("acquire", A.tryLock(ctx) == nil)
+	periods := 25
+	if verif.Tier() > 0 {
+		periods = 60
+	}
+	for k := 0; k < periods; k++ {
+		verif.Advance(vPeriod)
+		verif.Assert("live_lock_not_stale", !B.lock.IsStale())
+	}
+	lfs.before = nil
+	verif.Assert("release", A.unlock(ctx) == nil)
+}
